@@ -463,8 +463,8 @@ def check_c18(tier, seed):
         if not cfgo.get('rate_control_mode') and not (cfgo.get('min_qp_allowed', 0) <= cfgo.get('qp', 30) <= cfgo.get('max_qp_allowed', 63)): c['_qp_outside_bounds'] = 1
         cases.append(c)
     for qp in ([0, 1, 2, 11, 20, 31, 43, 52, 62, 63] if tier == 'quick' else range(0, 64, 3)):
-        offs = rng.choice([[0] * 6, [0, 4, 8, 12, 16, 20], [-8, -4, 0, 4, 8, 12], [40, 40, 40, 40, 40, 40], [-60, 0, 60, 0, -60, 0]])
-        add({'qp': qp, 'use_fixed_qindex_offsets': 1, 'qindex_offsets': offs, 'key_frame_qindex_offset': rng.choice([0, -12, 20]), 'rate_control_mode': 0, 'hierarchical_levels': rng.choice([3, 4])}, rng.choice(['mix', 'noise', 'rails']), rng.randint(3, 10))
+        offs = rng.choice([[0] * 6, [0, 4, 8, 12, 16, 20], [-8, -4, 0, 4, 8, 12], [40, 40, 40, 40, 40, 40], [-60, 0, 60, 0, -60, 0], [4, 8, 12, 16, 20, 24], [-40, -32, -24, -16, -8, -4], [200, 100, 50, 25, 12, 6]])
+        add({'qp': qp, 'use_fixed_qindex_offsets': 1, 'qindex_offsets': offs, 'key_frame_qindex_offset': rng.choice([0, -12, 20]), 'rate_control_mode': 0, 'hierarchical_levels': rng.choice([2, 3, 4]), 'intra_period_length': -1}, rng.choice(['mix', 'noise', 'rails']), rng.randint(9, 20))
     for (mn, mx) in ([(1, 63), (20, 20), (10, 30), (40, 63), (0, 5), (30, 31), (5, 50), (60, 63), (0, 0), (33, 47)] if tier == 'quick' else [(rng.randint(0, 40), 0) for _ in range(40)]):
         if mx == 0: mx = rng.randint(mn, 63)
         for rc in (1, 2):
@@ -498,6 +498,13 @@ def check_c19(tier, seed):
                 cfgo = {'intra_period_length': P, 'intra_refresh_type': irt, 'hierarchical_levels': hl, 'scene_change_detection': 0, 'logical_processors': rng.choice([1, 2]), 'enc_mode': 8}
                 if rng.random() < 0.15: cfgo['enable_overlays'] = 1; cfgo['enc_mode'] = 6
                 cases.append(mk(ck, cfgo, gen.content(rng, kinds=['mix', 'moving'], n=n), n, (64, 64), oracles={'decode': 1, 'parse': 1, 'recon_compare': 0, 'intra_place': 1, 'suffix': 1, 'order': 0}, sim=gen.schedule(rng, allow_buggify=False)))
+    # long intra periods: counters that track the position inside the period (and their saturation limits: 255, 1024, 2048) are only exercised by streams longer than the period
+    for P in ([1029] if tier == 'quick' else [254, 255, 256, 1023, 1024, 1025, 2050]):
+        for irt in ((2,) if tier == 'quick' else (1, 2)):
+            n = P + 8
+            c = mk(ck, {'intra_period_length': P, 'intra_refresh_type': irt, 'hierarchical_levels': 3, 'scene_change_detection': 0, 'logical_processors': 2, 'enc_mode': 8, 'recon_enabled': 0}, {'kind': 'mix', 'seed': rng.randint(1, 999)}, n, (64, 64),
+                   oracles={'decode': 1, 'parse': 1, 'recon_compare': 0, 'intra_place': 1, 'suffix': 1, 'order': 0}, sim={'policy': 'np', 'seed': 1}); c['wall_timeout'] = 2000; c['sim']['step_limit'] = 400000000
+            cases.append(c); ck.ev.probe('long_intra_period')
     rs = run_batch(ck, cases, 'plain', 'C19', ('TERM', 'CRASH'))   # a crash or hang for some (period, refresh type) places no intra frames at all
     for r in rs:
         if r.get('suffix_checked'): ck.ev.probe('random_access_points_checked', r['suffix_checked'])
